@@ -286,6 +286,30 @@ func (e *Engine) mapOrderChecks(id string) []fdResult {
 	sort.Strings(conc)
 	out = append(out, fdResult{Name: "module/sequential#1", Props: []string{"C06"}, Goal: "the module starts no goroutine and uses no channel: no result depends on scheduling",
 		OK: len(conc) == 0, Detail: strings.Join(conc, "\n")})
+	// no process-wide cache: sync.Pool and sync.Map keep objects between builds (a pooled object that is not reset, a
+	// memoised file) - the module uses neither; package-level maps and slices are covered by global-write
+	var caches []string
+	for _, fn := range e.moduleFunctions() {
+		for _, b := range fn.Blocks {
+			for _, in := range b.Instrs {
+				c, ok := in.(ssa.CallInstruction)
+				if !ok {
+					continue
+				}
+				callee := c.Common().StaticCallee()
+				if callee == nil || callee.Signature.Recv() == nil {
+					continue
+				}
+				rt := callee.Signature.Recv().Type().String()
+				if rt == "*sync.Pool" || rt == "*sync.Map" {
+					caches = append(caches, fmt.Sprintf("%s calls %s at %s", shortFn(fn), callee.String(), e.pos(in.Pos())))
+				}
+			}
+		}
+	}
+	sort.Strings(caches)
+	out = append(out, fdResult{Name: "module/no-process-wide-cache#1", Props: []string{"C06"}, Goal: "the module keeps no sync.Pool / sync.Map: nothing a build produces is handed to a later build",
+		OK: len(caches) == 0, Detail: strings.Join(caches, "\n")})
 	for k, d := range declared {
 		if !used[k] {
 			out = append(out, fdResult{Name: "maporder-declaration/" + d.Func + "#" + fmt.Sprint(d.N), Props: []string{"C06"}, Goal: "declaration matches a loop that needs it", OK: false,
